@@ -5,6 +5,8 @@
 (* The text is abstracted to the tokens that matter to the lexer's state   *)
 (* machine (lexer.ll, start conditions STRING and STRING_EMBEDDED):        *)
 (*    Q  "      PL  %(      PR  %)      L  (      R  )      X  1           *)
+(*    N  a newline       BQ  \"  (an escaped quote)                         *)
+(*    BSQ  \\"  (an escaped backslash with a quote right after it)           *)
 (*                                                                         *)
 (* MEANING (doc/syntax.rst, "Formatting strings"): a program is a sequence *)
 (* of items; an item is a number, a parenthesised program or a string; a   *)
@@ -28,9 +30,11 @@
 EXTENDS Naturals, Sequences, FiniteSets, TLC
 
 CONSTANTS MaxLen, NoReset,
+          Pinned,      \* "none"; "dropnl": the catch-all of STRING_EMBEDDED is `.', a newline is not copied (before fix
+                       \* 826b041); "nopair": STRING_EMBEDDED knows \" but not \\ (before fix fac838a).  Self-tests.
           SpliceLimit, \* how deep splices may nest (parser.yy: every %( %) is parsed by a parser of its own on the C
                        \* stack, started from inside the lexer of the enclosing one; max_subquery_depth - 1 = 255)
-          Tok          \* the alphabet of this run, a subset of {"Q", "PL", "PR", "L", "R", "X"}
+          Tok          \* the alphabet of this run, a subset of {"Q", "PL", "PR", "L", "R", "X", "N", "BQ", "BSQ"}
 
 -----------------------------------------------------------------------------
 (* MEANING: end positions of the derivations starting at position i *)
@@ -43,14 +47,17 @@ PEnds(w, i, d) == {i} \cup UNION {PEnds(w, j, d) : j \in ItemEnds(w, i, d)}
 ItemEnds(w, i, d) ==
     IF i > Len(w) THEN {}
     ELSE CASE w[i] = "X" -> {i + 1}
+           [] w[i] = "N" -> {i + 1}          \* white space between items
            [] w[i] = "L" -> {k + 1 : k \in {k \in PEnds(w, i + 1, d) : k <= Len(w) /\ w[k] = "R"}}
-           [] w[i] = "Q" -> {k + 1 : k \in {k \in PartsEnds(w, i + 1, d) : k <= Len(w) /\ w[k] = "Q"}}
-           [] OTHER -> {}
+           \* a literal ends at a quote that no backslash escapes: Q, or the quote of BSQ (whose two
+           \* backslashes are the last character of the literal)
+           [] w[i] = "Q" -> {k + 1 : k \in {k \in PartsEnds(w, i + 1, d) : k <= Len(w) /\ w[k] \in {"Q", "BSQ"}}}
+           [] OTHER -> {}                    \* a backslash outside of a literal is not a word of the language
 \* parts of a string literal: literal characters (brackets are just characters), or a splice
 PartsEnds(w, i, d) ==
     {i} \cup
     (IF i > Len(w) THEN {}
-     ELSE CASE w[i] \in {"X", "L", "R"} -> PartsEnds(w, i + 1, d)
+     ELSE CASE w[i] \in {"X", "L", "R", "N", "BQ"} -> PartsEnds(w, i + 1, d)
             [] w[i] = "PR" -> IF d = 0 THEN PartsEnds(w, i + 1, d) ELSE {}
             [] w[i] = "PL" -> IF d + 1 > SpliceLimit THEN {}        \* nested too deeply: rejected, not a crash
                               ELSE UNION {PartsEnds(w, k + 1, d) : k \in {k \in PEnds(w, i + 1, d + 1) : k <= Len(w) /\ w[k] = "PR"}}
@@ -69,6 +76,11 @@ LexEmb(w, i, level, ins, body) ==
       [] t = "R" -> IF ~ins /\ level = 0 THEN [ok |-> FALSE, why |-> "toomany"]
                     ELSE LexEmb(w, i + 1, IF ins THEN level ELSE level - 1, ins, Append(body, t))
       [] t = "Q" -> LexEmb(w, i + 1, level, ~ins, Append(body, t))
+      \* \" : escaped inside a nested literal; elsewhere a backslash and a quote
+      [] t = "BQ" -> LexEmb(w, i + 1, level, IF Pinned = "nopair" \/ ins THEN ins ELSE ~ins, Append(body, t))
+      \* \\" : inside a nested literal an escaped backslash, elsewhere two backslashes -- and then a quote
+      [] t = "BSQ" -> LexEmb(w, i + 1, level, IF Pinned = "nopair" THEN ins ELSE ~ins, Append(body, t))
+      [] t = "N" -> LexEmb(w, i + 1, level, ins, IF Pinned = "dropnl" THEN body ELSE Append(body, t))
       [] t = "PL" -> LexEmb(w, i + 1, level + 1, FALSE, Append(body, t))
       [] t = "PR" -> IF level = 0 THEN [ok |-> TRUE, end |-> i + 1, body |-> body, ins |-> TRUE]
                      ELSE LexEmb(w, i + 1, level - 1, TRUE, Append(body, t))
@@ -80,6 +92,7 @@ RECURSIVE LexStr(_, _, _, _, _)
 LexStr(w, i, ins, bodies, parts) ==
     IF i > Len(w) THEN [ok |-> FALSE, why |-> "unterminated"]
     ELSE CASE w[i] = "Q" -> [ok |-> TRUE, end |-> i + 1, bodies |-> bodies, parts |-> parts]
+           [] w[i] = "BSQ" -> [ok |-> TRUE, end |-> i + 1, bodies |-> bodies, parts |-> Append(parts, [lit |-> "BS"])]
            [] w[i] = "PL" ->
                 LET e == LexEmb(w, i + 1, 0, IF NoReset THEN ins ELSE FALSE, <<>>) IN
                 IF e.ok THEN LexStr(w, e.end, e.ins, Append(bodies, e.body), Append(parts, [body |-> e.body])) ELSE e
@@ -93,6 +106,7 @@ MEnds(w, i, d) == {i} \cup UNION {MEnds(w, j, d) : j \in MItemEnds(w, i, d)}
 MItemEnds(w, i, d) ==
     IF i > Len(w) THEN {}
     ELSE CASE w[i] = "X" -> {i + 1}
+           [] w[i] = "N" -> {i + 1}
            [] w[i] = "L" -> {k + 1 : k \in {k \in MEnds(w, i + 1, d) : k <= Len(w) /\ w[k] = "R"}}
            [] w[i] = "Q" -> LET s == LexStr(w, i + 1, FALSE, <<>>, <<>>) IN
                             IF s.ok /\ (Len(s.bodies) > 0 => d + 1 <= SpliceLimit)
@@ -117,4 +131,20 @@ Words(n) == IF n = 0 THEN {<<>>} ELSE LET s == Words(n - 1) IN s \cup {Append(w,
 All == Words(MaxLen)
 Disagree == {w \in All : MAccept(w) # InLanguage(w)}
 MechanismIsTheLanguage == Disagree = {}
+
+\* what the lexer hands to the parser of a splice is the text between %( and the %) that ends it, nothing
+\* dropped and nothing added (from any %( of any sequence, whatever surrounds it)
+SpliceFaithful(w, i) == LET e == LexEmb(w, i + 1, 0, FALSE, <<>>) IN e.ok => e.body = SubSeq(w, i + 1, e.end - 2)
+Unfaithful == {w \in All : \E i \in 1..Len(w) : w[i] = "PL" /\ ~SpliceFaithful(w, i)}
+SplicesAreSubtexts == Unfaithful = {}
+
+\* sequences beyond the bound that are worth having: the shortest ones on which the lexer before fix fac838a
+\* (Pinned = "nopair") disagrees with the language, and relatives
+Witnesses == {<<"Q", "PL", "Q", "BSQ", "Q", "R", "Q", "PR", "Q">>,          \* "%( "\\" ")" %)"
+              <<"Q", "PL", "Q", "BSQ", "Q", "L", "Q", "PR", "Q">>,          \* "%( "\\" "(" %)"
+              <<"Q", "PL", "Q", "BQ", "BSQ", "Q", "R", "Q", "PR", "Q">>,    \* "%( "\"\\" ")" %)"
+              <<"Q", "PL", "Q", "N", "BSQ", "N", "Q", "R", "N", "Q", "PR", "Q">>,
+              <<"Q", "PL", "X", "N", "X", "N", "Q", "N", "Q", "PR", "N", "Q">>}
+WitnessesOK == \A w \in Witnesses : InLanguage(w) /\ MAccept(w) /\ \A i \in 1..Len(w) : w[i] = "PL" => SpliceFaithful(w, i)
+
 =============================================================================
